@@ -42,6 +42,8 @@ ASSUMPTIONS = [
     "error reports are compared by number (stderr lines `log4rs: `) and, for build errors, typed kind+name; texts never",
     "strict path = serde parse of RawConfig + log4rs::config::create_raw_config (YAML, JSON; no public TOML entry point)",
     "dates written by `{d}` and the JSON encoder's `time` field are masked before outputs are compared",
+    "built components are also compared structurally with their programmatic equivalents through their Debug "
+    "renderings (two objects printed by the same binary; the scheduled next_roll_time is masked)",
 ]
 TRUSTED = ["serde_yaml 0.9 / serde_json / toml 0.8 / serde derive / serde-value: text -> document tree",
            "humantime::parse_duration (refresh_rate), TimeTrigger::new arithmetic (C16), the OS file system"]
@@ -827,6 +829,16 @@ def _acc_of_model(model):
             sorted([[_b(l[0]), l[1], [_b(r) for r in l[2]], l[3]] for l in cfg[3]])]
 
 
+ROLLTIME = re.compile(r"next_roll_time: RwLock \{ data: [^,]*,")
+
+
+def _split_acc(acc):
+    """accessors without / only the Debug texts of the built components"""
+    plain = [[[a[0], a[1]] for a in acc[0]]] + list(acc[1:])
+    dbg = [(a[0], ROLLTIME.sub("next_roll_time: <t>,", a[2].decode("utf-8", "replace"))) for a in acc[0]]
+    return plain, dbg
+
+
 def compare(c, impl, model):
     if not isinstance(impl, list) or len(impl) != len(c[2]) + 1:
         return "implementation result malformed / harness panicked: %r" % (impl,)
@@ -841,7 +853,8 @@ def compare(c, impl, model):
         # rotate (C07's subject): accepted here when file-loaded and programmatic configurations do the same
         if not isinstance(prog, list) or len(prog) != 4 or prog[0] not in (1, 3):
             return "the programmatic equivalent of the model's logical configuration did not build/run: %r" % (prog[:1],)
-        if prog[1] != acc:
+        pacc, pdbg = _split_acc(prog[1])
+        if pacc != acc:
             return "programmatic equivalent: accessors differ from the model's configuration"
         pbeh = norm_behaviour(prog[3])
     for (ext, _), d in zip(docs, impl[:-1]):
@@ -866,8 +879,11 @@ def compare(c, impl, model):
         if status != prog[0]:
             return "%s: load_config_file status=%d (0 Err, 1 Ok, 2 panic, 3 panic while logging), model loads it, programmatic %d" % (
                 ext, status, prog[0])
+        dacc, ddbg = _split_acc(dacc)
         if dacc != acc:
             return "%s: Config accessors differ from the model (appenders/filters, root, loggers)" % ext
+        if ddbg != pdbg:
+            return "%s: a built component differs from its programmatic equivalent (Debug renderings compared)" % ext
         if dn != nerr:
             return "%s: %d errors reported on stderr, model reports %d" % (ext, dn, nerr)
         if dref != refresh:
